@@ -33,6 +33,10 @@ var (
 	RatePool  = []float64{0, 0.1, 0.5, 0.9, 1}
 )
 
+// InvalidUTF8Names enables local counter names with bytes that are not valid UTF-8 (set by checks whose oracle
+// does not depend on how such a name is rendered in a local report).
+var InvalidUTF8Names = false
+
 func subset[T comparable](t *rapid.T, pool []T, min int, label string) []T {
 	var out []T
 	for i, x := range pool {
@@ -131,6 +135,11 @@ func LocalName(t *rapid.T, cfg *telemetry.UploadConfig, prog string, mark *int, 
 	case -4, -3, -2, -1, 0, 1, 2, 3:
 		return one
 	case 4:
+		if InvalidUTF8Names && rapid.IntRange(0, 2).Draw(t, "invalidUTF8") == 0 {
+			// near misses that differ from an approved expansion only by bytes that are not valid UTF-8
+			// (a counter name is raw bytes in the file; text handling that repairs them must not turn it into an approved name)
+			return rapid.SampledFrom([]string{one + "\xff", "\x80" + one, one[:len(one)/2] + "\xfe" + one[len(one)/2:], one + "\xed\xa0\x80", "\xc3" + one}).Draw(t, "invalidUTF8Name")
+		}
 		// near misses of an approved expansion
 		return rapid.SampledFrom([]string{one[:len(one)-1] + "", one + "x", one + " ", strings.ToUpper(one), " " + one,
 			one + "}", one + ",b2", strings.Replace(one, ":", "::", 1), strings.ReplaceAll(one, " ", ""), strings.Replace(one, ":", ": ", 1)}).Draw(t, "nearMiss")
@@ -273,6 +282,11 @@ func CountFiles(t *rapid.T, cfg *telemetry.UploadConfig, ends []time.Time, o Fil
 		f := &vmodel.CountFile{Build: builds[rapid.IntRange(0, len(builds)-1).Draw(t, "build")], Kind: "ok", Counts: map[string]uint64{}}
 		f.End = ends[rapid.IntRange(0, len(ends)-1).Draw(t, "week")]
 		f.Begin = f.End.AddDate(0, 0, -1-rapid.IntRange(0, 6).Draw(t, "spanDays"))
+		if rapid.IntRange(0, 7).Draw(t, "oddSpan") == 0 {
+			// what decides a file's week is its recorded end; the recorded span may be anything before it: a week
+			// that had a clock change (written by a program using local time), a file kept open for longer, an hour
+			f.Begin = f.End.Add(-rapid.SampledFrom([]time.Duration{7*24*time.Hour + time.Hour, 8 * 24 * time.Hour, 10 * 24 * time.Hour, 16 * 24 * time.Hour, 40 * 24 * time.Hour, time.Hour, time.Second}).Draw(t, "oddSpanLen"))
+		}
 		if o.AllowBad {
 			f.Kind = rapid.SampledFrom([]string{"ok", "ok", "ok", "ok", "ok", "empty", "garbage", "truncated", "baddate", "nometa", "badbody"}).Draw(t, "kind")
 		}
